@@ -74,6 +74,8 @@ type Loop struct {
 	headReach Term
 	latches   int
 	sharedPhis map[*ssa.Phi]bool
+	headSt     State
+	headItem   int
 }
 
 type Edge struct {
@@ -490,15 +492,14 @@ func (ex *Exec) mergeVals(conds []Term, vals []Val, what string) Val {
 	}
 	// data: ite chain; views lose their origin unless identical
 	cur := ex.curVal(vals[len(vals)-1], nil)
-	r := cur
-	for i := len(vals) - 2; i >= 0; i-- {
-		vi := vals[i].T
-		if !sameSort(vi.Sort, r.Sort) {
-			return Val{Poison: fmt.Sprintf("merge of different sorts for %s: %s vs %s", what, vi.Sort, r.Sort)}
+	ts := make([]Term, len(vals))
+	for i := range vals {
+		ts[i] = vals[i].T
+		if !sameSort(ts[i].Sort, cur.Sort) {
+			return Val{Poison: fmt.Sprintf("merge of different sorts for %s: %s vs %s", what, ts[i].Sort, cur.Sort)}
 		}
-		r = Ite(conds[i], vi, r)
 	}
-	out := Val{T: ex.vc.Define("m_"+what, r)}
+	out := Val{T: ex.vc.Define("m_"+what, mergeTerms(conds, ts, 0))}
 	for _, v := range vals {
 		if v.Shared {
 			out.Shared = true
@@ -576,13 +577,40 @@ func (ex *Exec) mergeStates(conds []Term, sts []State) State {
 			out[c] = ts[0]
 			continue
 		}
-		r := ts[len(ts)-1]
-		for i := len(ts) - 2; i >= 0; i-- {
-			r = Ite(cds[i], ts[i], r)
-		}
-		out[c] = ex.vc.Define("mc_"+c.Name, r)
+		out[c] = ex.vc.Define("mc_"+c.Name, mergeTerms(cds, ts, 0))
 	}
 	return out
+}
+
+// mergeTerms: ite chain; struct values are merged field by field so that fields that are the same on every
+// path stay syntactically the same term (accessors then fold instead of being hidden behind an ite).
+func mergeTerms(cds []Term, ts []Term, depth int) Term {
+	same := true
+	for _, t := range ts[1:] {
+		if t.S != ts[0].S {
+			same = false
+		}
+	}
+	if same {
+		return ts[0]
+	}
+	s := ts[0].Sort
+	if s.Kind == KData && (s.Role == "struct" || s.Role == "array") && depth < 4 && len(s.Fields) > 0 && len(s.Fields) <= 16 {
+		fs := make([]Term, len(s.Fields))
+		for i := range s.Fields {
+			sub := make([]Term, len(ts))
+			for j, t := range ts {
+				sub[j] = FieldOf(t, i)
+			}
+			fs[i] = mergeTerms(cds, sub, depth+1)
+		}
+		return MkData(s, fs...)
+	}
+	r := ts[len(ts)-1]
+	for i := len(ts) - 2; i >= 0; i-- {
+		r = Ite(cds[i], ts[i], r)
+	}
+	return r
 }
 
 type nodeState struct {
@@ -855,6 +883,7 @@ func (f *Frame) cutHeader(n *Node, l *Loop) {
 		}
 	}
 	l.headReach = ns.reach
+	l.headItem = len(ex.vc.items)
 	// 4. assume invariants
 	if l.spec != nil {
 		sc := f.scope(ns)
@@ -867,12 +896,16 @@ func (f *Frame) cutHeader(n *Node, l *Loop) {
 			t := sc.evalBool(inv.Expr)
 			ex.vc.Assume(Implies(ns.reach, t), "loop invariant "+l.key)
 		}
+		for _, u := range l.spec.Uses {
+			ex.vc.AssumeHeavy(Implies(ns.reach, sc.evalBool(u.Expr)), "lemma instance at loop head: "+u.Text)
+		}
 		if l.spec.Decreases != nil {
 			l.measure = ex.vc.Define(f.prefix+"meas_"+l.key, sc.eval(l.spec.Decreases.Expr))
 			l.hasMeas = true
 		}
 	}
 	l.headNames = copyNames(ns.names)
+	l.headSt = ns.st.clone()
 	if l.spec != nil && l.spec.Havoc {
 		ex.suppress++
 		ex.regions = append(ex.regions, fmt.Sprintf("%s loop %s (havoc: body not verified)", funcKey(f.fn), l.key))
@@ -1041,18 +1074,54 @@ func (f *Frame) backEdge(l *Loop, e Edge) {
 		return
 	}
 	sc := f.scope(ns)
+	sc.head = &Scope{ex: ex, names: l.headNames, st: l.headSt, old: f.oldScope, bound: map[string]Term{}}
 	for _, lt := range l.spec.Lets {
 		v := sc.eval(lt.Expr)
 		ns.names[lt.Name] = Val{T: v}
 		sc = f.scope(ns)
+		sc.head = &Scope{ex: ex, names: l.headNames, st: l.headSt, old: f.oldScope, bound: map[string]Term{}}
+	}
+	// step assertions: proved in order, each may use the earlier ones; all are available to the invariants
+	minItem := 0
+	if l.spec.Isolated {
+		minItem = l.headItem
+	}
+	var proved []string
+	pick := func(c *Clause) []string {
+		// `... using stepassert(2); stepassert(5)` selects which earlier step assertions the clause may use
+		var sel []string
+		any := false
+		for _, u := range c.Using {
+			if u.Op == "call" && u.Name == "stepassert" && len(u.Args) == 1 && u.Args[0].Op == "lit" {
+				any = true
+				var k int
+				fmt.Sscanf(u.Args[0].Name, "%d", &k)
+				if k >= 1 && k <= len(proved) {
+					sel = append(sel, proved[k-1])
+				}
+			} else {
+				sel = append(sel, fmt.Sprintf("(assert %s)", Implies(e.cond, sc.evalBool(u)).S))
+				any = true
+			}
+		}
+		if !any {
+			return append([]string(nil), proved...)
+		}
+		return sel
+	}
+	for i, as := range l.spec.Asserts {
+		t := sc.evalBool(as.Expr)
+		ex.obl(&Obligation{Name: fmt.Sprintf("%s.stepassert.%d", base, i+1), Kind: "assert", Props: as.Props, Hyp: e.cond, Goal: t, MinItem: minItem,
+			Extra: pick(as), Note: "asserted at the end of the loop body: " + as.Text, Pos: f.pos(l.header.Instrs[0].Pos())})
+		proved = append(proved, fmt.Sprintf("(assert %s)", Implies(e.cond, t).S))
 	}
 	for i, inv := range l.spec.Invariants {
 		if !hasProp(inv.Props, ex.prop) {
 			continue
 		}
 		t := sc.evalBool(inv.Expr)
-		ex.obl(&Obligation{Name: fmt.Sprintf("%s.step.%d", base, i+1), Kind: "inv-step", Props: inv.Props, Hyp: e.cond, Goal: t,
-			Note: "invariant preserved: " + inv.Text, Pos: f.pos(l.header.Instrs[0].Pos())})
+		ex.obl(&Obligation{Name: fmt.Sprintf("%s.step.%d", base, i+1), Kind: "inv-step", Props: inv.Props, Hyp: e.cond, Goal: t, MinItem: minItem,
+			Extra: pick(inv), Note: "invariant preserved: " + inv.Text, Pos: f.pos(l.header.Instrs[0].Pos())})
 	}
 	if l.hasMeas {
 		m := sc.eval(l.spec.Decreases.Expr)
@@ -1118,6 +1187,11 @@ func (ex *Exec) rangeFacts(t Term, typ types.Type, depth int) []Term {
 		}
 	case *types.Map:
 		out = append(out, leT(IntLit64(0, SInt), mpCard(t)), leT(mpCard(t), IntLit(maxSliceLen, SInt)), Implies(mpNil(t), Eq(mpCard(t), IntLit64(0, SInt))))
+		{
+			// a nil map has no keys
+			k := Atom("q_nk", t.Sort.Key)
+			out = append(out, Term{S: fmt.Sprintf("(forall ((q_nk %s)) (! (=> %s (not %s)) :pattern (%s)))", t.Sort.Key.Name, mpNil(t).S, Select(mpDom(t), k).S, Select(mpDom(t), k).S), Sort: SBool})
+		}
 		if depth >= 2 {
 			k := Atom("q_rk", t.Sort.Key)
 			el := ex.rangeFacts(Select(mpVal(t), k), u.Elem(), 2)
